@@ -1,6 +1,11 @@
 #!/bin/sh
-# runs every registered quick check on the current tree (used before committing evidence)
+# runs every registered quick check on the current tree (used before committing evidence); the last line says whether all are clean
 cd /verif
+bad=0
 for p in $(python3 -c "import json; print(' '.join(c['property_id'] for c in json.load(open('MANIFEST.json'))['checks']))"); do
-  ./check $p ${1:-quick} 2>&1 | grep -E "^VIOLATION|^property" 
+  out=$(./check $p ${1:-quick} 2>&1)
+  echo "$out" | grep -E "^VIOLATION|^property"
+  echo "$out" | grep -q "^VIOLATION" && bad=$((bad+1))
+  echo "$out" | grep -q "^property .* 0 violations" || bad=$((bad+1))
 done
+if [ $bad -eq 0 ]; then echo "RUN_ALL: ALL CLEAN"; else echo "RUN_ALL: $bad PROBLEM(S)"; fi
